@@ -115,7 +115,7 @@ def numeric_looking(s):
 
 
 @st.composite
-def colfiles(draw):
+def colfiles(draw, text=False):
     nk = draw(st.integers(0, 8))
     nu = draw(st.integers(0 if nk else 1, 4))
     titles = draw(st.lists(st.sampled_from(KNOWN_TITLES), min_size=nk, max_size=nk, unique=True)) + \
@@ -123,7 +123,11 @@ def colfiles(draw):
     titles = list(draw(st.permutations(titles)))
     nrows = draw(st.integers(1, 8))
     ints = _ints()
-    cols = {t: [draw(values(integer=(t in ints))) for _ in range(nrows)] for t in titles}
+    # integer-titled columns usually hold whole numbers; one file in four holds averaged / fractional values there
+    # (written with no decimals: rounded to the nearest whole number, not cut off)
+    # (text route only: the HDF route stores these columns as integers by design)
+    fracints = text and draw(st.sampled_from([False, False, False, True]))
+    cols = {t: [draw(values(integer=(t in ints and not fracints))) for _ in range(nrows)] for t in titles}
     npar = draw(st.integers(0, 4))
     pars = {draw(parnames()): draw(parvalues()) for _ in range(npar)}
     return dict(titles=titles, cols=cols, pars=pars)
@@ -545,6 +549,26 @@ def check_grains(case, rec=None):
                 if fails:
                     break
     # ---- hdf
+    def cmp_h5(written, rd, what):
+        if len(rd) != len(written):
+            fails.append(fail("grain_count", "h5%s: wrote %d grains, read %d" % (what, len(written), len(rd)), route="h5"))
+            return
+        for i, (w, r) in enumerate(zip(written, rd)):
+            if not np.array_equal(r.ubi, w.ubi):
+                fails.append(fail("grain_ubi", "h5%s grain %d: UBI not exact" % (what, i), route="h5"))
+                return
+            if (w.translation is None) != (r.translation is None) or (
+                    w.translation is not None and not np.array_equal(r.translation, w.translation)):
+                fails.append(fail("grain_t", "h5%s grain %d: translation %r read %r" %
+                                  (what, i, w.translation, r.translation), route="h5"))
+                return
+            for attr in ("name", "npks", "nuniq"):
+                hw, hr = hasattr(w, attr), hasattr(r, attr)
+                if hw != hr or (hw and not (getattr(w, attr) == getattr(r, attr))):
+                    fails.append(fail("grain_attr", "h5%s grain %d: %s wrote %r read %r" %
+                                      (what, i, attr, getattr(w, attr, None), getattr(r, attr, None)), route="h5",
+                                      attr=attr))
+                    return
     ok, e = guard(grain.write_grain_file_h5, fh, gl)
     if not ok:
         fails.append(exc_failure("write_grain_file_h5", e))
@@ -552,27 +576,29 @@ def check_grains(case, rec=None):
         ok, rd = guard(grain.read_grain_file_h5, fh)
         if not ok:
             fails.append(exc_failure("read_grain_file_h5", rd))
-        elif len(rd) != len(gl):
-            fails.append(fail("grain_count", "h5: wrote %d grains, read %d" % (len(gl), len(rd)), route="h5"))
         else:
-            for i, (w, r) in enumerate(zip(gl, rd)):
-                if not np.array_equal(r.ubi, w.ubi):
-                    fails.append(fail("grain_ubi", "h5 grain %d: UBI not exact" % i, route="h5"))
-                    break
-                if (w.translation is None) != (r.translation is None) or (
-                        w.translation is not None and not np.array_equal(r.translation, w.translation)):
-                    fails.append(fail("grain_t", "h5 grain %d: translation %r read %r" %
-                                      (i, w.translation, r.translation), route="h5"))
-                    break
-                for attr in ("name", "npks", "nuniq"):
-                    hw, hr = hasattr(w, attr), hasattr(r, attr)
-                    if hw != hr or (hw and not (getattr(w, attr) == getattr(r, attr))):
-                        fails.append(fail("grain_attr", "h5 grain %d: %s wrote %r read %r" %
-                                          (i, attr, getattr(w, attr, None), getattr(r, attr, None)), route="h5",
-                                          attr=attr))
-                        break
-                if fails:
-                    break
+            cmp_h5(gl, rd, "")
+        if not fails:
+            # the same file saved again with another (shorter, re-counted) list: either refused, or what is read back
+            # is the second list
+            gl2 = build_grains(case)[:max(1, len(gl) // 2)]
+            for k, g2 in enumerate(gl2):
+                g2.npks = 7 + k
+                if k % 2:
+                    g2.translation = None
+            ok, e = guard(grain.write_grain_file_h5, fh, gl2)
+            if not ok:
+                if isinstance(e, (ValueError, OSError, RuntimeError)):
+                    if rec is not None:
+                        rec.exclude("second write_grain_file_h5 into the same file refused (h5py: name already exists)")
+                else:
+                    fails.append(exc_failure("write_grain_file_h5 (second save)", e))
+            else:
+                ok, rd = guard(grain.read_grain_file_h5, fh)
+                if not ok:
+                    fails.append(exc_failure("read_grain_file_h5 (second save)", rd))
+                else:
+                    cmp_h5(gl2, rd, " second save")
     # ---- ubi file (6 decimals)
     ok, e = guard(indexing.write_ubi_file, fu, [g.ubi for g in gl])
     if not ok:
@@ -695,7 +721,7 @@ def run_shard(rec):
     k = 1 if quick else 8
     if rec.shard == 0:
         run_cases(rec, "frame", REG_FRAME, lambda c: check_frame(c, rec))
-    hyp_run(rec, "colfile_text", colfiles(), lambda c: check_colfile_text(c, rec), max_examples=120 * k)
+    hyp_run(rec, "colfile_text", colfiles(text=True), lambda c: check_colfile_text(c, rec), max_examples=120 * k)
     hyp_run(rec, "colfile_hdf", hdfcases(), lambda c: check_colfile_hdf(c, rec), max_examples=40 * k)
     hyp_run(rec, "parameters", st.dictionaries(parnames(), parvalues(), min_size=0, max_size=8),
             lambda c: check_pars(c, rec), max_examples=150 * k)
